@@ -1100,6 +1100,10 @@ pub fn alphabet(d: usize, vals: &[u8], with_batch: bool, with_plain: bool, extra
         // (removal lists may name a position more than once, adjacently or not)
         let mut rsets: Vec<Vec<u64>> = vec![vec![], vec![0], vec![c - 1], vec![0, 1], vec![0, 2], vec![1, 3], vec![c], vec![2, 0], vec![0, 0], vec![0, 0, c - 1], vec![1, c - 1, 1], vec![c - 1, 0, c - 1]];
         rsets.retain(|r| r.iter().all(|x| *x <= c));
+        if d >= 3 {
+            // (depth 3: two of the four lists with repeats; depths 1 and 2 have them all)
+            rsets.retain(|r| *r != vec![0, 0] && *r != vec![c - 1, 0, c - 1]);
+        }
         rsets.sort();
         rsets.dedup();
         for s in &starts {
@@ -1715,6 +1719,9 @@ impl TreeProp {
         // re-hashing gets wrong), histories up to length 4 on the in-memory backends
         if with_plain {
             for d in [4usize, 5] {
+                if q && f == Focus::C07 && d == 4 {
+                    continue; // (C07 quick: the depth-5 one only; proofs depend on the state reached, not on the route)
+                }
                 let c = 1u64 << d;
                 let pat = |n: u64| -> Vec<u8> { (0..n).map(|k| if k % 2 == 0 { 1 } else { 2 }).collect() };
                 let mut ops = vec![TreeOp::Range(0, pat(c)), TreeOp::Range(0, pat(c - 1)), TreeOp::Range(2, pat(c - 2)), TreeOp::Range(c / 2, pat(c / 2)), TreeOp::Range(0, pat(c / 2 + 2))];
@@ -1780,11 +1787,13 @@ impl TreeProp {
             for r in [vec![3u64, 100], vec![3, 40], vec![0, 127], vec![19, 20], vec![3, 11, 19], vec![100, 3], vec![3, 50, 100], vec![64, 96], vec![11, 11, 19], vec![3, 19, 3]] {
                 ops.push(TreeOp::Batch(0, vec![], r));
             }
+            if !(q && f == Focus::C07) {
             plans.push(ExploreCfg {
                 focus: f, depth: 7, ops,
                 backends: vec![(Kind::Full, 3), (Kind::Optimal, 3), (Kind::Pm, if q { 2 } else { 3 }), (Kind::Rln, 2)],
                 nodedup_len: 1, max_len: if q && f == Focus::C07 { 2 } else { 3 }, positions: all(7), full_obs: true, allow: None, dense_after: None, label: "depth7.sparse-removals".into(),
             });
+            }
             // depth 14: removal lists whose members are thousands of positions apart (trait level only: the byte-level API
             // and the FFI take removal indices as single bytes), all of them set / some of them unset or beyond the leaf count
             {
@@ -1877,7 +1886,7 @@ impl TreeProp {
             }
             plans.push(ExploreCfg {
                 focus: f, depth: d, ops,
-                backends: vec![(Kind::Full, 3), (Kind::Optimal, 3), (Kind::Pm, 3), (Kind::Rln, if q { 1 } else { 2 })],
+                backends: vec![(Kind::Full, 3), (Kind::Optimal, 3), (Kind::Pm, if q { 2 } else { 3 }), (Kind::Rln, if q { 1 } else { 2 })],
                 nodedup_len: 1, max_len: 3, positions: pos, full_obs: false, allow: Some(one_long), dense_after: if q { None } else { Some(long_op) }, label: "depth16.one-long-operation".into(),
             });
         }
